@@ -1399,7 +1399,8 @@ func runC10(c *Checker) {
 	for _, fn := range []*ssa.Function{ch, sh} {
 		ruleNonSynIgnored(c, fn)
 	}
-	c.floor("GBNHS-3", 2)
+	ruleHandshakeExtras(c, ch, sh)
+	c.floor("GBNHS-3", 3)
 
 	// ---- GBNHS-1 (cont.): the server never reports a completed handshake without having adopted N ----
 	{
@@ -1991,4 +1992,106 @@ func pathFromBlockEntryToBlock(from, to *ssa.BasicBlock, avoid func(ssa.Instruct
 	}
 	seen[from] = true
 	return walk(from)
+}
+
+// ruleHandshakeExtras: (a) the client's SYN proposes the configured window (the value it later
+// compares the echo with); (b) a packet that is not a SYN never ends the client's wait for the
+// SYN - it may be a left-over of an earlier connection - so from the failed type test no return
+// is reachable before the next wait; (c) no error of a transport send is dropped in either
+// handshake.
+func ruleHandshakeExtras(c *Checker, ch, sh *ssa.Function) {
+	w := c.w
+	fSynN := w.Field("gbn.PacketSYN.N")
+	fN := w.Field("gbn.config.n")
+	if fSynN == nil || fN == nil {
+		return
+	}
+	// (a)
+	okN, n := true, 0
+	for _, st := range w.Stores(fSynN) {
+		if st.Parent() != ch {
+			continue
+		}
+		n++
+		if !isLoadOfField(st.Val, fN) {
+			okN = false
+		}
+	}
+	c.decide(okN && n >= 1, "GBNHS-2", "clientHandshake|the SYN proposes the configured window", ch.Pos(), "PacketSYN{N: cfg.n}",
+		"the client's SYN does not carry cfg.n: for any window but the default the echo can never match and the handshake never converges")
+	// (b)
+	var waits []ssa.Instruction
+	allInstrs(ch, func(in ssa.Instruction) {
+		if _, ok := in.(*ssa.Select); ok {
+			waits = append(waits, in) // also the non-blocking re-arm poll with its quit/ctx exits
+		}
+	})
+	okIgn, found := true, false
+	allInstrs(ch, func(in ssa.Instruction) {
+		ta, ok := in.(*ssa.TypeAssert)
+		if !ok || !ta.CommaOk || namedOf(ta.AssertedType) == nil || namedOf(ta.AssertedType).Obj().Name() != "PacketSYN" {
+			return
+		}
+		for _, r := range *ta.Referrers() {
+			ex, ok := r.(*ssa.Extract)
+			if !ok || ex.Index != 1 {
+				continue
+			}
+			for _, rr := range *ex.Referrers() {
+				iff, ok := rr.(*ssa.If)
+				if !ok {
+					continue
+				}
+				found = true
+				notSyn := iff.Block().Succs[1]
+				if len(notSyn.Instrs) == 0 {
+					continue
+				}
+				isWait := func(x ssa.Instruction) bool {
+					for _, wt := range waits {
+						if x == wt {
+							return true
+						}
+					}
+					return false
+				}
+				allInstrs(ch, func(x ssa.Instruction) {
+					if ret, ok := x.(*ssa.Return); ok && ret.Block().Comment != "recover" {
+						if pathFromBlockEntry(notSyn, ret, isWait) {
+							okIgn = false
+						}
+					}
+				})
+			}
+		}
+	})
+	c.decide(found && okIgn, "GBNHS-3", fnName(ch)+"|a non-SYN packet never ends the wait for the SYN", ch.Pos(), "from the failed SYN type test every path reaches the next wait before any return",
+		"a packet that is not a SYN (a left-over of an earlier connection) makes the client give up the handshake instead of reading on")
+	// (c)
+	for _, fn := range []*ssa.Function{ch, sh} {
+		bad := ""
+		k := 0
+		allInstrs(fn, func(in ssa.Instruction) {
+			call, ok := in.(*ssa.Call)
+			if !ok {
+				return
+			}
+			f := chanField(call.Common().Value)
+			if f == nil || f.Name() != "sendToStream" {
+				return
+			}
+			k++
+			tested := false
+			for _, r := range *call.Referrers() {
+				if bo, ok := r.(*ssa.BinOp); ok && (bo.Op == token.EQL || bo.Op == token.NEQ) {
+					tested = true
+				}
+			}
+			if !tested {
+				bad = w.pos(instrPos(call))
+			}
+		})
+		c.decide(bad == "" && k >= 1, "GBNHS-2", fnName(fn)+"|no send error is dropped", fn.Pos(), fmt.Sprintf("%d transport sends, each error tested", k),
+			"the error of the transport send at "+bad+" is dropped: the handshake reports completion although its SYN/SYNACK never went out")
+	}
 }
